@@ -44,7 +44,6 @@ THEORY = "C18"
 MAGIC = 0x00494D51
 T_REQ, T_KILL, T_RESP, T_START, T_SHUT = 0x201, 0x202, 0x101, 0x102, 0x103
 ENUM_TAGS = {T_REQ, T_KILL, T_RESP, T_START, T_SHUT}
-REAL_PID = os.getpid()
 
 
 def src_addr(idx):
@@ -163,9 +162,8 @@ class Impl:
         self._exit = os._exit
         os._exit = self._fake_exit
         self.exit_calls = 0
-        self.pid = 4242
-        self._m_os = M.os
-        M.os = _Proxy(self._m_os, getpid=lambda: self.pid, _exit=self._fake_exit)
+        self.real_getpid = os.getpid
+        self.pid_mode = "scripted"      # set by calibrate(): does the code ask os.getpid() when it answers?
         # a platform whose os.path.normcase folds case (Windows): the filters must stay
         # case-sensitive there too.  fnmatchcase does not look at it.
         self._f_os = fnmatch.os
@@ -186,9 +184,37 @@ class Impl:
         self._w.__exit__(*a)
         logging.disable(logging.NOTSET)
         fnmatch.os = self._f_os
-        self.M.os = self._m_os
+        os.getpid = self.real_getpid
         os._exit = self._exit
         return False
+
+    def as_pid(self, pid):
+        """ambient process id while implementation code runs: `pid` as reported by os.getpid() (None: the real one)"""
+        im = self
+
+        class _P:
+            def __enter__(self_):
+                if pid is not None and im.pid_mode == "scripted":
+                    os.getpid = lambda: pid
+
+            def __exit__(self_, *a):
+                os.getpid = im.real_getpid
+                return False
+        return _P()
+
+    def own_pid(self, pid):
+        """the process id an answer must carry when the ambient pid is `pid`: computed in the process that answers"""
+        return pid if (pid is not None and self.pid_mode == "scripted") else self.real_getpid()
+
+    def calibrate(self):
+        """Does the code look the pid up through os.getpid() at the time it answers (then the harness can vary it
+        cheaply)?  If the answer carries the real pid instead, only the forked sessions can tell a stale pid."""
+        ctx = {"name": "cal", "wg": "wg", "pid": 1234567, "port": 1}
+        outs, _ = impl_session(self, ctx, [[mk_req(1, b"CALIBRAT", b"*", b"*")]], probe=False)
+        rp = parse_resp(outs[0][1]) if outs and outs[0][0] == "send" else None
+        if rp is not None and rp["pid"] == self.real_getpid():
+            self.pid_mode = "real"
+        return None if rp is None else rp["pid"]
 
     def saw(self, where, cls):
         k = "%s:%s" % (where, cls)
@@ -215,81 +241,165 @@ def sendable(ctx):
         return False
 
 
-def impl_session(im, ctx, bursts, probe=True):
-    """bursts: list of lists of datagrams; an empty burst is a wake-up with nothing to read.
-    -> (outs, info).  outs, one per datagram in arrival order:
-         ('nothing', exc-class-or-None) | ('send', bytes, to_the_sender) | ('exit',) | ('weird', text)
-       info: {'alive': the responder still answers afterwards (None = cannot tell), 'why_dead': text}"""
-    im.pid = ctx["pid"]
-    _, sock, loop = im.responder(ctx["name"], ctx["wg"], ctx["port"])
-    n, exits, unread = 0, set(), set()
+class Session:
+    """One real _UdpResponder on a scripted socket and loop.  ctx: the context's identity record {name, wg, port, pid,
+    build_pid?}; pid / build_pid = ambient process id (as os.getpid() reports it) while datagrams are handled / while
+    the responder is constructed; None = the real pid of the process this runs in."""
 
-    def pump(k):
+    def __init__(self, im, ctx):
+        self.im, self.ctx = im, ctx
+        with im.as_pid(ctx.get("build_pid", ctx["pid"])):
+            _, self.sock, self.loop = im.responder(ctx["name"], ctx["wg"], ctx["port"])
+        self.n, self.exits, self.unread, self.fed = 0, set(), set(), []
+
+    def _pump(self, k):
         """level-triggered delivery: call the reader while something is queued"""
-        calls = 0
+        sock, loop, calls = self.sock, self.loop, 0
         while True:
             before = len(sock.inq)
             try:
                 loop.wake(sock)
             except _ExitCalled:
-                exits.add(sock.current)
+                self.exits.add(sock.current)
             calls += 1
             if not sock.inq or loop.killed:
                 return
             if len(sock.inq) == before or calls > k + 3:
-                unread.update(i for i, _, _ in sock.inq)     # the responder does not read any more
+                self.unread.update(i for i, _, _ in sock.inq)     # the responder does not read any more
                 del sock.inq[:]
                 return
 
-    for burst in bursts:
+    def feed(self, burst):
         for d in burst:
             assert _never_kill(d)
-            sock.inq.append((n, bytes(d), src_addr(n)))
-            n += 1
-        pump(len(burst))
-    sends, escaped = {}, dict((i, c) for c, i in reversed(loop.escaped))
-    cur = None
-    stray = 0
-    for ev in sock.events:
-        if ev[0] == "recv":
-            cur = ev[1]
-        elif cur is None:
-            stray += 1
-        else:
-            sends.setdefault(cur, []).append(ev[1:])
-    outs = []
-    for i in range(n):
-        sn = sends.get(i, [])
-        if i in exits:
-            outs.append(("exit",))
-        elif i in unread:
-            outs.append(("weird", "datagram never read: the responder stopped reading its socket"))
-        elif len(sn) > 1:
-            outs.append(("weird", "%d datagrams sent for one datagram received" % len(sn)))
-        elif sn:
-            outs.append(("send", sn[0][0], sn[0][1] == src_addr(i)))
-        else:
-            outs.append(("nothing", escaped.get(i)))
-    for c, _ in loop.escaped:
-        im.saw("escaped-into-the-loop's-exception-handler", c)
-    im.bufsizes |= sock.bufsizes
-    info = {"alive": None, "why_dead": None, "stray_sends": stray}
-    if loop.killed:
-        info.update(alive=False, why_dead="%s left the read callback: the event loop stops" % loop.killed)
-    elif not loop.readers:
-        info.update(alive=False, why_dead="the responder removed its reader from the event loop")
-    elif sock.closed:
-        info.update(alive=False, why_dead="the responder closed its socket")
-    elif probe:
-        m = len(sock.sent)
-        sock.inq.append((n, mk_req(PROBE_ID, PROBE_TS, b"*", b"*"), src_addr(n)))
-        pump(1)
-        ans = [parse_resp(b) for b, a in sock.sent[m:] if a == src_addr(n)]
-        if any(r and r["rid"] == PROBE_ID for r in ans):
-            info["alive"] = True
-        elif sendable(ctx):
-            info.update(alive=False, why_dead="a request with filters ('*', '*') is not answered any more")
-    return outs, info
+            self.sock.inq.append((self.n, bytes(d), src_addr(self.n)))
+            self.n += 1
+        self.fed.append(list(burst))
+        with self.im.as_pid(self.ctx["pid"]):
+            self._pump(len(burst))
+
+    def finish(self, probe=True):
+        im, sock, loop, n, ctx = self.im, self.sock, self.loop, self.n, self.ctx
+        sends, escaped = {}, dict((i, c) for c, i in reversed(loop.escaped))
+        cur = None
+        stray = 0
+        for ev in sock.events:
+            if ev[0] == "recv":
+                cur = ev[1]
+            elif cur is None:
+                stray += 1
+            else:
+                sends.setdefault(cur, []).append(ev[1:])
+        outs = []
+        for i in range(n):
+            sn = sends.get(i, [])
+            if i in self.exits:
+                outs.append(("exit",))
+            elif i in self.unread:
+                outs.append(("weird", "datagram never read: the responder stopped reading its socket"))
+            elif len(sn) > 1:
+                outs.append(("weird", "%d datagrams sent for one datagram received" % len(sn)))
+            elif sn:
+                outs.append(("send", sn[0][0], sn[0][1] == src_addr(i)))
+            else:
+                outs.append(("nothing", escaped.get(i)))
+        for c, _ in loop.escaped:
+            im.saw("escaped-into-the-loop's-exception-handler", c)
+        im.bufsizes |= sock.bufsizes
+        # the pid every answer must carry: that of the process the responder runs in NOW (never cached elsewhere)
+        info = {"alive": None, "why_dead": None, "stray_sends": stray, "pid": im.own_pid(ctx["pid"])}
+        if loop.killed:
+            info.update(alive=False, why_dead="%s left the read callback: the event loop stops" % loop.killed)
+        elif not loop.readers:
+            info.update(alive=False, why_dead="the responder removed its reader from the event loop")
+        elif sock.closed:
+            info.update(alive=False, why_dead="the responder closed its socket")
+        elif probe:
+            m = len(sock.sent)
+            sock.inq.append((n, mk_req(PROBE_ID, PROBE_TS, b"*", b"*"), src_addr(n)))
+            with im.as_pid(ctx["pid"]):
+                self._pump(1)
+            ans = [parse_resp(b) for b, a in sock.sent[m:] if a == src_addr(n)]
+            if any(r and r["rid"] == PROBE_ID for r in ans):
+                info["alive"] = True
+            elif sendable(ctx):
+                info.update(alive=False, why_dead="a request with filters ('*', '*') is not answered any more")
+        return outs, info
+
+
+def impl_session(im, ctx, bursts, probe=True):
+    """bursts: list of lists of datagrams; an empty burst is a wake-up with nothing to read.
+    -> (outs, info).  outs, one per datagram in arrival order:
+         ('nothing', exc-class-or-None) | ('send', bytes, to_the_sender) | ('exit',) | ('weird', text)
+       info: {'alive': the responder still answers afterwards (None = cannot tell), 'why_dead': text,
+              'pid': the process id of the process the responder ran in}"""
+    s = Session(im, ctx)
+    for burst in bursts:
+        s.feed(burst)
+    return s.finish(probe)
+
+
+def impl_pair(im, ctxs, script):
+    """Two responders of different contexts alive in one process; script: [(which, burst), ...] interleaved.
+    -> [(bursts, outs, info) for each]"""
+    ss = [Session(im, c) for c in ctxs]
+    for which, burst in script:
+        ss[which].feed(burst)
+    return [(s.fed,) + s.finish() for s in ss]
+
+
+def impl_forked(im, ctx, bursts, prebuilt):
+    """Run the session in a child process forked NOW (long after the qmi modules were imported); with prebuilt, the
+    responder object is constructed in this process and used in the child.  Everything expected of the answers is
+    computed in the child.  -> (outs, info, why)"""
+    import pickle
+    import select
+    ctx = dict(ctx, pid=None)
+    pre = Session(im, ctx) if prebuilt else None
+    r, w = os.pipe()
+    child = os.fork()
+    if child == 0:
+        code = 0
+        try:
+            os.close(r)
+            s = pre or Session(im, ctx)
+            for burst in bursts:
+                s.feed(burst)
+            outs, info = s.finish()
+            why = oracle_session(ctx, bursts, outs, info)
+            os.write(w, pickle.dumps((outs, info, why, im.rejected_by, im.bufsizes)))
+        except BaseException as e:   # noqa
+            try:
+                os.write(w, pickle.dumps(("child-failed", "%s: %s" % (type(e).__name__, e))))
+            except BaseException:  # noqa
+                code = 3
+        finally:
+            im._exit(code)           # the real os._exit
+    os.close(w)
+    data = b""
+    try:
+        while True:
+            rd, _, _ = select.select([r], [], [], 60.0)
+            if not rd:
+                os.kill(child, 9)
+                raise common.TieBroken("the forked responder session did not finish within 60 s")
+            chunk = os.read(r, 1 << 16)
+            if not chunk:
+                break
+            data += chunk
+    finally:
+        os.close(r)
+        os.waitpid(child, 0)
+    res = pickle.loads(data) if data else ("child-failed", "no result")
+    if res[0] == "child-failed":
+        raise common.TieBroken("the forked responder session failed: %s" % res[1])
+    outs, info, why, rej, bufs = res
+    if info["pid"] != child:
+        raise common.TieBroken("forked session: the child computed pid %r, the parent forked %r" % (info["pid"], child))
+    for k, v in rej.items():
+        im.rejected_by[k] = max(im.rejected_by.get(k, 0), v)
+    im.bufsizes |= bufs
+    return outs, info, why
 
 
 REQ_KINDS = ("QMI_UdpResponderContextInfoRequestPacket", "QMI_UdpResponderContextInfoResponsePacket")
@@ -364,10 +474,10 @@ def impl_discover(im, my_name, cfg_wg, wf, cf, req_id, replies, responders=()):
             for (n, w, p, pid) in responders:
                 if not _never_kill(data):
                     continue
-                im.pid = pid
-                _, rs, lp = im.responder(n, w, p)
-                rs.inq.append((0, data, ("10.9.9.9", 5555)))
-                lp.wake(rs)
+                with im.as_pid(pid):
+                    _, rs, lp = im.responder(n, w, p)
+                    rs.inq.append((0, data, ("10.9.9.9", 5555)))
+                    lp.wake(rs)
                 got += [(s[0], ("10.0.0.%d" % (len(got) + 1), 35999)) for s in rs.sent]
             state["replies"] = got + [(materialise(b, data), a) for (b, a) in replies]
             self.inq.extend((i, b, a) for i, (b, a) in enumerate(state["replies"]))
@@ -505,8 +615,9 @@ def oracle_session(ctx, bursts, outs, info):
                 continue
             if rp["name"] != cs(ctx["name"].encode()) or rp["wg"] != cs(ctx["wg"].encode()):
                 return "answer does not carry the context's name/workgroup"
-            if rp["pid"] not in (ctx["pid"], REAL_PID):
-                return "answer does not carry the process id"
+            if rp["pid"] != info["pid"]:
+                return "answer does not carry the id of the process the context runs in (carries %d, runs in %d)" % (
+                    rp["pid"], info["pid"])
             if rp["port"] != ((ctx["port"] + 2 ** 31) % 2 ** 32) - 2 ** 31:
                 return "answer does not carry the TCP port"
     if info.get("stray_sends"):
@@ -855,22 +966,21 @@ def c_hout(o):
     return "HExit"      # exit / weird: the model never yields it for generated input
 
 
-def c_session_parts(ctx, bursts, outs):
+def c_session_parts(ctx, bursts, outs, info):
+    """the model's identity record (name, workgroup, pid, port) is filled from the answering process: info['pid']"""
     flat = [d for b in bursts for d in b]
-    ds, pid = [], None
+    ds = []
     for d, o in zip(flat, outs):
         if o[0] == "send" and len(o[1]) >= 42:
             nid, nts = struct.unpack("<Q", o[1][6:14])[0], o[1][14:22]
-            if struct.unpack("<i", o[1][38:42])[0] == REAL_PID != ctx["pid"]:
-                pid = REAL_PID      # the code does not ask the `os` name of its module for the pid: live value
         else:
             nid, nts = 0, b""
         ds.append("(%s, %s, %s)" % (cN(nid), cbytes(nts), cbytes(d)))
-    return c_ctx(ctx, pid), clist(ds), clist([c_hout(o) for o in outs])
+    return c_ctx(ctx, info["pid"]), clist(ds), clist([c_hout(o) for o in outs])
 
 
-def c_session(ctx, bursts, outs):
-    return "CSession %s %s %s" % c_session_parts(ctx, bursts, outs)
+def c_session(ctx, bursts, outs, info):
+    return "CSession %s %s %s" % c_session_parts(ctx, bursts, outs, info)
 
 
 def c_unpack(b, o):
@@ -931,6 +1041,10 @@ def run(ck):
         "SystemExit/KeyboardInterrupt into the loop, a ('*','*') request answered). The exception classes seen are listed in "
         "the evidence (observed_rejections), not compared",
         "the responder's own message id and timestamp and the asker's request id and timestamp are read off the datagrams sent",
+        "the identity record of the model (name, workgroup, pid, port) is filled from the answering process: the pid is "
+        "os.getpid() of the process the responder runs in (forked children included), or the value the harness makes "
+        "os.getpid() report during the request when the code looks it up at that time (calibrated at the start of the run). "
+        "Name, workgroup and port are not changed after construction (QMI fixes them before the responder exists)",
         "case-sensitivity is observed by running the responder with an os.path.normcase that folds case (as on Windows)",
         "a filter that is not UTF-8 text matches nothing; when the context's own names do not fit the 64-byte fields, or a "
         "discovery filter does not fit, or a reply to the own request carries a name that is not text, the property does not "
@@ -944,12 +1058,30 @@ def run(ck):
         terms.append(term)
         metas.append(meta)
 
-    def do_session(im, ctx, bursts, bucket, alone=False):
-        outs, info = impl_session(im, ctx, bursts)
+    def do_session(im, ctx, bursts, bucket, alone=False, forked=None, given=None, pair=None):
+        """forked: None (this process) | 'after' (responder built in the forked child) | 'before' (built here, used in
+        the child); given: (outs, info) already observed (sessions run as a pair)"""
+        extra = {}
+        if forked:
+            ctx = dict(ctx, pid=None)
+            outs, info, why = impl_forked(im, ctx, bursts, prebuilt=(forked == "before"))
+            extra = {"forked": forked}
+            if why:
+                ck.report("oracle:session:forked:" + why.split("(")[0].strip()[:60],
+                          "C18 fails on the implementation (responder running in a process forked after qmi was imported%s): %s"
+                          % (", responder object constructed before the fork" if forked == "before" else "", why),
+                          {"kind": "session", "ctx": ctx, "bursts": jbursts(bursts), "forked": forked,
+                           "impl_observed": [repr(o) for o in outs], "pid_of_the_answering_process": info["pid"]})
+        else:
+            outs, info = given or impl_session(im, ctx, bursts)
+            why = oracle_session(ctx, bursts, outs, info) or (oracle_alone(im, ctx, bursts, outs) if alone else None)
+            if why and pair:
+                ck.report("oracle:session:two-contexts:" + why.split("(")[0].strip()[:60],
+                          "C18 fails on the implementation (two contexts answering in one process, context %r): %s" % (ctx["name"], why),
+                          dict(pair, impl_observed=[repr(o) for o in outs]))
+            elif why:
+                report_session(ck, im, why, ctx, bursts)
         flat = [d for b in bursts for d in b]
-        why = oracle_session(ctx, bursts, outs, info) or (oracle_alone(im, ctx, bursts, outs) if alone else None)
-        if why:
-            report_session(ck, im, why, ctx, bursts)
         undefined = False
         for d, o in zip(flat, outs):
             rq = parse_req(bytes(d))
@@ -962,10 +1094,52 @@ def run(ck):
         if undefined:
             ck.count("session:outcome-not-fixed-by-the-property(not compared)")
         elif max([len(d) for d in flat] or [0]) <= 6000:
-            add(c_session(ctx, bursts, outs), {"kind": "session", "ctx": ctx, "bursts": jbursts(bursts)})
+            add(c_session(ctx, bursts, outs, info), dict({"kind": "session", "ctx": ctx, "bursts": jbursts(bursts)}, **extra))
         return outs, info
 
     with Impl() as im:
+        seen = im.calibrate()
+        ck.coverage["pid_lookup"] = ("os.getpid() at the time of the answer (varied by the harness)" if im.pid_mode == "scripted"
+                                     else "not through os.getpid() at the time of the answer: only the forked sessions vary it")
+        if seen is not None and seen not in (1234567, im.real_getpid()):
+            ck.report("oracle:session:pid-neither", "an answer carries process id %d: neither what os.getpid() reports (1234567 "
+                      "during this call) nor the id of this process (%d)" % (seen, im.real_getpid()),
+                      {"kind": "session", "ctx": {"name": "cal", "wg": "wg", "pid": 1234567, "port": 1},
+                       "bursts": jbursts([[mk_req(1, b"CALIBRAT", b"*", b"*")]])})
+
+        # ---- 00. the identity in an answer is that of the ANSWERING context at the time of the request ---------------
+        # (a) responder running in a process forked long after the qmi modules were imported, built after / before the fork
+        for k in range(6):
+            name, wg = "fork%d" % k, rng.choice(["wg", "site/lab", "W"])
+            ctx = {"name": name, "wg": wg, "pid": None, "port": rng.choice([0, 1, 35999, 65535, -1])}
+            hit = mk_req(rand_id(rng), rand_ts(rng), wg.encode(), (name[:-1] + "?").encode())
+            miss = mk_req(rand_id(rng), rand_ts(rng), wg.encode(), (name + "x").encode())
+            shapes = [[[hit]], [[miss], [hit]], [[gen_junk(rng, hit)[0], gen_junk(rng, hit)[0], hit]], [[hit, miss, hit]]]
+            for forked in ("after", "before"):
+                do_session(im, ctx, shapes[(k + (forked == "before")) % 4], "forked-" + forked, forked=forked)
+                ck.note_case(("F", k, forked), True)
+        # (b) two responders of different contexts alive in one process, requests interleaved
+        for k in range(6):
+            ctxs = [{"name": "left%d" % k, "wg": "wgL", "pid": 7000 + k, "port": 1000 + k},
+                    {"name": "right%d" % k, "wg": rng.choice(["wgL", "wgR"]), "pid": 7000 + k, "port": 2000 + k}]
+            script = []
+            for _ in range(rng.randint(2, 5)):
+                which = rng.randrange(2)
+                pat = rng.choice(["*", ctxs[which]["name"], ctxs[1 - which]["name"], "l*", "r*", "?????" + str(k)])
+                req = mk_req(rand_id(rng), rand_ts(rng), b"wg?", pat.encode())
+                script.append((which, [req] if rng.random() < 0.7 else [gen_junk(rng, req)[0], req]))
+            pm = {"kind": "pair", "ctxs": ctxs, "script": [[w, [list(d) for d in b]] for w, b in script]}
+            for c, (fed, outs, info) in zip(ctxs, impl_pair(im, ctxs, script)):
+                if fed:
+                    do_session(im, c, fed, "two-contexts", given=(outs, info), pair=pm)
+            ck.note_case(("P", k), True)
+        # (c) ambient process id differs between construction of the responder and the request
+        for k in range(4):
+            ctx = {"name": "late%d" % k, "wg": "wg", "build_pid": 3000 + k, "pid": 4000 + k, "port": 5}
+            req = mk_req(rand_id(rng), rand_ts(rng), b"*", b"late*")
+            do_session(im, ctx, [[req]] if k % 2 else [[gen_junk(rng, req)[0]], [req]], "pid-changed-after-construction")
+            ck.note_case(("A", k), True)
+
         # ---- 0. fixed bucket: filters straddling the two fields, '/' in workgroup names -------
         for wg, name, wf, cf in STRADDLE:
             ctx = {"name": name, "wg": wg, "pid": 4242, "port": 35999}
@@ -1180,9 +1354,12 @@ def run(ck):
             if m["kind"] == "session":
                 bursts = [[bytes(d) for d in b] for b in m["bursts"]]
                 ctx = m["ctx"]
-                outs, info = impl_session(im, ctx, bursts)
-                why = oracle_session(ctx, bursts, outs, info) or oracle_alone(im, ctx, bursts, outs)
-                parts = c_session_parts(ctx, bursts, outs)
+                if m.get("forked"):
+                    outs, info, why = impl_forked(im, ctx, bursts, prebuilt=(m["forked"] == "before"))
+                else:
+                    outs, info = impl_session(im, ctx, bursts)
+                    why = oracle_session(ctx, bursts, outs, info) or oracle_alone(im, ctx, bursts, outs)
+                parts = c_session_parts(ctx, bursts, outs, info)
                 m = dict(m, impl_observed=[repr(o) for o in outs],
                          model=ck.model_eval("C18.Corr", "model_session %s %s" % parts[:2])[-3000:])
             elif m["kind"] == "unpack":
@@ -1335,15 +1512,29 @@ def replay(rep):
             if not all(_never_kill(d) for b in bursts for d in b):
                 print("refusing to replay a kill request")
                 return 2
-            outs, info = impl_session(im, c["ctx"], bursts)
-            print("context", c["ctx"])
+            im.calibrate()
+            if c.get("forked"):
+                print("session run in a child forked now; responder constructed %s the fork" % c["forked"])
+                outs, info, why0 = impl_forked(im, c["ctx"], bursts, prebuilt=(c["forked"] == "before"))
+            else:
+                outs, info = impl_session(im, c["ctx"], bursts)
+                why0 = None
+            print("context", c["ctx"], "running in process", info["pid"])
             for d, o in zip([d for b in bursts for d in b], outs):
                 rq = parse_req(d)
                 print("datagram", d.hex() if len(d) < 200 else d[:200].hex() + "...(%d bytes)" % len(d),
                       ("= request with filters (%r, %r)" % (rq["wf"], rq["cf"])) if rq else "(not a well-formed request)",
                       "->", o[0], o[1].hex() if o[0] == "send" else o[1:])
             print("responder alive afterwards:", info["alive"], info["why_dead"] or "")
-            why = oracle_session(c["ctx"], bursts, outs, info) or oracle_alone(im, c["ctx"], bursts, outs)
+            why = why0 or oracle_session(c["ctx"], bursts, outs, info) or \
+                (None if c.get("forked") else oracle_alone(im, c["ctx"], bursts, outs))
+        elif c["kind"] == "pair":
+            im.calibrate()
+            why = None
+            script = [(w, [bytes(d) for d in b]) for w, b in c["script"]]
+            for cx, (fed, outs, info) in zip(c["ctxs"], impl_pair(im, c["ctxs"], script)):
+                print("context", cx, "->", [o[0] if o[0] != "send" else parse_resp(o[1]) for o in outs])
+                why = why or oracle_session(cx, fed, outs, info)
         elif c["kind"] == "unpack":
             b = bytes(c["bytes"])
             o = impl_unpack(im, b)
